@@ -351,7 +351,10 @@ func checkWaste(m *lib.Monitor, sc wasteScn, ans string) {
 				missed += " " + e
 			}
 		}
-		if missed != "" {
+		if sc.Mid && sc.N >= 1 && missed == " "+projWaste(sc.RM, sc.N-1) {
+			// exactly the newest completely added record, while another add is between its Set and its append
+			m.Violate(sig+"/newest-record-missed-during-add", "a stream opened while an AddWasteRecord was between its Set and its append was sent the history without its newest record and, as seed, the record being added: the newest completely added record was sent by nobody:"+missed, in, expS, gotS)
+		} else if missed != "" {
 			m.Violate(sig+"/record-missed", "a record committed before the stream was opened (within the last 50) was sent neither as history nor as seed:"+missed, in, expS, gotS)
 		} else {
 			m.Violate(sig+"/wrong-seed-part", "the records sent before the first later record are not the last 50 committed ones, oldest first", in, expS, gotS)
